@@ -11,7 +11,7 @@ PF = {'u8': 32, 'u16': 16, 'u32': 8, 'u64': 4, 'u128': 2, 'u256': 1, 'h256': Non
 KINDS = [k for k in KIND_SIZE if k not in ('nest', 'nest2')]   # 'nest' is only compiled for a few capacities
 NEST_N = [4, 8, 9, 33, 1024]
 NEST2_N = [3, 4, 5, 8, 9, 17]
-MAPS = ['btree', 'vec', 'maxvec']
+MAPS = ['btree', 'vec', 'maxvec', 'maxbtree']
 SMALL_N = [1, 2, 3, 4, 5, 7, 8, 9, 16, 17, 32, 33]
 BIG = {'u8': [1024, 2 ** 40, 64, 100, 256], 'u16': [64, 100], 'u64': [1024, 2 ** 40, 2 ** 50],
        'u256': [1024, 2 ** 40], 'h256': [1024, 2 ** 40, 2 ** 48], 'var': [1024, 2 ** 40]}
@@ -366,6 +366,7 @@ class HistGen:
             else:
                 kvs[n + 1] = self.v()
             if self.map != 'btree':
+                # the model stores Vec-backed (and MaxMap) maps densely: keep their keys small
                 kvs = {k: v for k, v in kvs.items() if k < 4096}
         items = list(kvs.items())
         rng.shuffle(items)   # insertion order is arbitrary
@@ -385,7 +386,7 @@ class HistGen:
         ok = not c['dirty']
         if ok and kvs:
             keys = sorted(kvs)
-            if self.map == 'maxvec':
+            if self.map in ('maxvec', 'maxbtree'):
                 ins = [k for k in keys if not via_entry[k] or (dup and k == dup[0])]
                 mx = max(ins) if ins else 0
             else:
